@@ -144,7 +144,7 @@ func (vc *VC) runAnchors(f *Frame, st *State, in ssa.Instruction, after bool) {
 func (vc *VC) execGhost(f *Frame, st *State, g *GhostStmt) {
 	sc := vc.entryScope()
 	sc.st, sc.frame = st, f
-	rhs, _, ok := vc.trExpr(sc, g.RHS, "ghost rhs")
+	rhs, rhsT, ok := vc.trExpr(sc, g.RHS, "ghost rhs")
 	if !ok {
 		return
 	}
@@ -172,6 +172,9 @@ func (vc *VC) execGhost(f *Frame, st *State, g *GhostStmt) {
 	if gf == nil {
 		vc.specErrors = append(vc.specErrors, "ghost statement: unknown ghost field "+fe.Name)
 		return
+	}
+	if rhsT == tNil {
+		rhs = vc.env.Zero(gf.typ)
 	}
 	h := st.Heap(vc, gf.heap, gf.sort)
 	if key != nil {
@@ -275,7 +278,7 @@ func (vc *VC) elemHeaps(elem types.Type) []elemHeap {
 			}
 			return
 		}
-		hn, hs := env.cellHeap(t)
+		hn, hs := env.elemHeap(t)
 		out = append(out, elemHeap{hn, hs, sub, inv})
 	}
 	id := func(r Term) Term { return r }
